@@ -33,11 +33,9 @@ theorem deserialize_goes_through_constructor (O : Oracles) (opts : DeserOpts) (c
   simp only at h
   split at h
   · rename_i kvs
-    split at h
-    · cases h
-    · rename_i kw _
-      rcases bindE_eq_ok h with ⟨args, _, h2⟩
-      exact ⟨args, by simpa [construct] using h2⟩
+    rcases dClassRef_dict_ok kvs _ _ _ x h with ⟨kw, hk⟩
+    rcases bindE_eq_ok hk with ⟨args, _, h2⟩
+    exact ⟨args, by simpa [construct] using h2⟩
   · cases h
 
 /-- **C06 ⊆ C01**: every deserialized instance is well-formed -/
@@ -55,16 +53,19 @@ theorem deserialize_err_class (O : Oracles) (opts : DeserOpts) (c : ClassOpts)
   unfold deserialize at h
   simp only at h
   split at h
-  · split at h
-    · cases h; exact Or.inl rfl
-    · rename_i kw _
-      cases hd : deserFields O opts c kw fields false with
-      | error e' =>
-        rw [hd] at h; simp at h; subst h
-        exact deserFields_err O opts c kw fields false e' hd
+  · refine dClassRef_err _ _ _ _ e (fun kw e' hk => ?_) (fun kw e' hk => ?_) h
+    · cases hd : deserFields O opts c kw fields false with
+      | error e2 =>
+        rw [hd] at hk; simp at hk; subst hk
+        exact deserFields_err O opts c kw fields false e2 hd
+      | ok args => rw [hd] at hk; simp at hk
+    · cases hd : deserFields O opts c kw fields false with
+      | error e2 =>
+        rw [hd] at hk; simp at hk; subst hk
+        exact deserFields_err O opts c kw fields false e2 hd
       | ok args =>
-        rw [hd] at h; simp only [bindE_ok] at h
-        exact vConstruct_err c _ _ _ e (fun e' he => validateFields_err O c defaults _ fields e' he) h
+        rw [hd] at hk; simp only [bindE_ok] at hk
+        exact vConstruct_err c _ _ _ e' (fun e2 he => validateFields_err O c defaults _ fields e2 he) hk
   · cases h; exact Or.inl rfl
 
 /-- a non-object top-level document is rejected with TypeError -/
